@@ -33,7 +33,10 @@ CHECKS = {
              'issues NOOP and its shadow view (UID set and flags, kept as a '
              'real client keeps them incl. optimistic .SILENT stores) must '
              'equal the mailbox as seen by a fresh read-only probe session '
-             '(cross-checked with the dict table).',
+             '(cross-checked with the dict table).'
+             ' Some observers are read-only (their refused STORE/EXPUNGE m'
+             'ust not cost them a later report); sequence sets are also wr'
+             'itten as unordered comma lists.',
         note='same schedule space as C01; a client is assumed to fetch only '
              'what it was never told; threaded maildir mode not covered'),
     'C16': dict(
@@ -48,7 +51,11 @@ CHECKS = {
              'seconds of polling); then every idler view must equal the '
              'mailbox; DONE must give OK with no late data, garbage must '
              'give BAD. Evidence counts how many changes landed before-arm / '
-             'during-write / parked.',
+             'during-write / parked.'
+             ' Every fourth case ends IDLE early (DONE at an arbitrary mom'
+             'ent, also in the middle of a notification, next command at o'
+             'nce) and ends in a judged IDLE entered right after a non-UID'
+             ' FETCH.',
         note='unbounded "eventually" is out of reach for monitoring and is '
              'restated as quiescence of the controlled loop'),
     'C06': dict(
@@ -66,7 +73,14 @@ CHECKS = {
              'continuation / BYE once the controlled loop is quiescent, '
              'within 5M monitored steps; never BYE [SERVERBUG], never a close '
              'without BYE, never a dead connection task; a canary connection '
-             'must still be served.',
+             'must still be served.'
+             ' Lines include the valid commands as they are, self-referent'
+             'ial ones, numbers of 4301-5000 digits, SEARCH nesting around'
+             ' the recursion limit, ManageSieve synchronising literals, LI'
+             'ST patterns of 6-30 wildcards against an almost matching lon'
+             'g name, and an enumerated grid of pumped header values (a CP'
+             'U-time watchdog turns loops inside C code into hang:cpu-time'
+             ').',
         note='lines < 64 KiB; in-memory transport (no TLS handshake); '
              'internal errors are classified by exception class + innermost '
              'pymap function'),
@@ -84,7 +98,9 @@ CHECKS = {
              "stay inside A's mailbox directory (never rename/remove the "
              'directory itself); credential files may only be read at LOGIN; '
              "user B's tree, the credential files, a canary file and B's view "
-             'through his own session must be unchanged afterwards.',
+             'through his own session must be unchanged afterwards.'
+             ' The vocabulary includes INBOX variants and NFKC look-alikes'
+             " of '.', '..', '/' and INBOX.",
         note='CPython audit events + wrapped os.stat/lstat/access; stores in '
              'a sacrificial tree with mutations outside it vetoed; reads '
              'under interpreter/library prefixes are not judged; symlink '
@@ -118,7 +134,10 @@ CHECKS = {
              'appended via {n}, {n+} and ~{n+} on dict and maildir; BODY[], '
              'RFC822, RFC822.SIZE, HEADER+TEXT, 4 partial ranges around the '
              'ends, the COPY and MOVE copies and the BODYSTRUCTURE octet '
-             'count of every leaf part are compared with the input.',
+             'count of every leaf part are compared with the input.'
+             ' RFC822.SIZE is also fetched alone and with metadata only; p'
+             'art numbers are followed below message/rfc822; checksum-coll'
+             'iding twin messages and re-created mailboxes are included.',
         note='messages <= 64 KiB; redis not runnable; line counts not '
              'checked; the BODYSTRUCTURE octet counts are a known finding '
              'pinned by the repository tests'),
@@ -134,7 +153,10 @@ CHECKS = {
              'evaluator and UID SEARCH; NOT NOT, De Morgan, commutativity, '
              'parentheses and ALL relations; views with hidden expunged '
              'messages and renumbered views; mismatches are shrunk to the '
-             'smallest wrong key.',
+             'smallest wrong key.'
+             ' 12% of the programs carry a twin key (same argument text un'
+             'der another key: sequence set / UID set, BEFORE / SENTBEFORE'
+             ', LARGER / SMALLER, FROM / TO ...).',
         note='ground truth is the server\'s own FETCH dump of the same view; '
              'RFC latitude (hidden expunged messages, keywords, empty '
              'strings) is an allowed set and counted'),
@@ -165,7 +187,13 @@ CHECKS = {
              '\\Recent flag) and COPY arrive; per message the set of '
              'read-write selections told \\Recent must have <= 1 element; '
              'SELECT/untagged RECENT must equal the flags seen; STORE of '
-             '\\Recent must change nothing; dict and maildir.',
+             '\\Recent must change nothing; dict and maildir.'
+             ' A de-selection phase ends every selection in one of seven w'
+             'ays before deliveries (also by a session that has the mailbo'
+             'x selected read-only) and the next read-write SELECT; STATUS'
+             ' (RECENT) of an unselected observer is compared around a fla'
+             'g-changing command; a third of the maildir cases use --colon'
+             " '!'.",
         note='the read-write selection is the unit that may be told once; '
              'os.listdir order is shuffled on maildir (POSIX leaves it '
              'unspecified)'),
@@ -221,7 +249,11 @@ CHECKS = {
              'later, APPENDUID/COPYUID UIDs are found by UID FETCH with the '
              'expected content in source->destination order; maildir '
              'histories are additionally swept over every crash point and a '
-             'post-restart APPEND must exceed every acknowledged UID.',
+             'post-restart APPEND must exceed every acknowledged UID.'
+             ' Histories are kept per (name, UIDVALIDITY) as a client cach'
+             'es them; mailboxes are replaced (RENAME away / DELETE, then '
+             'CREATE) while other sessions know or have selected them; fil'
+             'es are dropped into maildir new/.',
         note='UIDVALIDITY random collisions not searched; real-time order '
              'from loop steps at the client boundary'),
     'C15': dict(
@@ -242,7 +274,9 @@ CHECKS = {
              "command's) and the same UID unless UIDVALIDITY changed, no UID "
              'may name another message, nothing unexplained may appear, '
              'every mailbox must open, acknowledged creations/subscriptions '
-             'persist and the next APPEND gets a higher UID.',
+             'persist and the next APPEND gets a higher UID.'
+             ' Every other CHECK of the histories runs under EXAMINE (mess'
+             'ages still unclaimed in new/).',
         note='crash = process death between filesystem operations as seen by '
              'CPython audit events; not power loss / torn writes; stale lock '
              'files are aged before the restart'),
@@ -280,7 +314,12 @@ CHECKS = {
              'end in OK must leave none of its messages, NO/BAD must leave '
              'contents unchanged. maildir: histories with MOVE/MULTIAPPEND/'
              'COPY swept over every filesystem operation as failure point and '
-             'as kill point, judged after restart.',
+             'as kill point, judged after restart.'
+             ' Storage calls fail with OSError (answered BYE) and with Tim'
+             'eoutError (answered NO); a maildir slice lets a foreign hold'
+             'er take the uidlist lock right after the k-th message file w'
+             'as written and cancels the waiting command or lets it time o'
+             'ut.',
         note='storage-call faults happen instead of the call; filesystem '
              'faults are limited to operations that can fail with ENOSPC; '
              'atomicity of MULTIAPPEND across process death is a known '
@@ -300,7 +339,11 @@ CHECKS = {
              'the marker header / STORE .SILENT) that reveals authenticated?, '
              'which mailbox is selected, read-only?; each step must be in the '
              "automaton's allowed set, refused commands must leave state and "
-             'a full data dump unchanged, LOGOUT must give BYE, OK, close.',
+             'a full data dump unchanged, LOGOUT must give BYE, OK, close.'
+             ' IDLE + DONE + next command are also sent in one segment aft'
+             'er every way of having a mailbox selected, and another conne'
+             'ction deletes or renames away the selected mailbox before ea'
+             'ch of 13 commands.',
         note='bad_command_limit is switched off so five refusals do not end a '
              'trace; pysasl entry-point scan memoised in the worker; TLS '
              'handshake is a no-op on the in-memory transport'),
@@ -336,7 +379,10 @@ CHECKS = {
              'maildir with a keywords file; a quarter of the cases run the '
              'server in a non-UTC zone; after every step condition, untagged '
              'responses and a dump (order, content id, UID stability, size, '
-             'date, flags) must match the model.',
+             'date, flags) must match the model.'
+             ' Right before one FETCH in five another connection edits fla'
+             'gs in the selected mailbox (the model takes the result from '
+             'the probe).',
         note='\\Recent and absolute UID values excluded (C17, C04 own them); '
              'latitudes are documented and counted'),
     'C11': dict(
@@ -351,7 +397,10 @@ CHECKS = {
              '*, LSUB "" *, three hostile reference/pattern probes, '
              '\\Noselect/\\HasChildren truthfulness and content dumps '
              '(messages, UIDs, UIDVALIDITY across RENAME) are compared with '
-             'the model; NO must change nothing.',
+             'the model; NO must change nothing.'
+             ' Deleted subscribed names are created again; a third of the '
+             'programs send 30% of their mutating commands through a secon'
+             'd connection of the same user.',
         note="'.' inside a name part on maildir ++ aliases with the on-disk "
              'delimiter and is kept out of generated names; ten RFC '
              'latitudes are allowed sets and counted'),
